@@ -47,4 +47,18 @@ Frac(num, den) ==
       gg == GCD(Abs(num), Abs(den))
       d == IF gg = 0 THEN 1 ELSE gg
   IN <<(s * num) \div d, (s * den) \div d>>
+
+(* Comparison of a logged rational with an exact expectation.  The harness logs
+   <<p, q>> reduced when the float is within 1e-11 of a fraction with q <= 100000,
+   and <<round(x * 10^6), -1>> otherwise; in the second case the expectation must
+   indeed have a larger denominator and agree to 6 decimals. *)
+RECURSIVE Digits(_, _, _, _)
+Digits(r, den, k, acc) == IF k = 0 THEN acc ELSE Digits((r * 10) % den, den, k - 1, acc * 10 + (r * 10) \div den)
+Scaled6(num, den) == (num \div den) * 1000000 + Digits(num % den, den, 6, 0)      \* num >= 0, den > 0
+RatMatches(logged, expected) ==
+  IF logged[2] = -1
+    THEN /\ expected[2] > 100000
+         /\ LET s == Scaled6(Abs(expected[1]), expected[2])
+            IN Abs(Abs(logged[1]) - s) <= 1 /\ (logged[1] < 0 <=> expected[1] < 0)
+    ELSE logged = expected
 =============================================================================
